@@ -281,7 +281,7 @@ def target(ctx, scenarios, quick_points=40):
             n0 = max(1, total // 2)  # (both threads run the same kind of work: the first one's share)
             # thorough: every line of small scenarios, 1500 points of big ones; quick: `quick_points` per scenario, the
             # offset of the comb moves with VERIF_SEED
-            points = (n0 if n0 <= 3000 else 1500) if ctx.thorough else (min(n0, 300) if s.startswith("tiny_") else quick_points)
+            points = (n0 if n0 <= 3000 else 1500) if ctx.thorough else (min(n0, 200) if s.startswith("tiny_") else quick_points)
             stride = max(1, n0 // points)
             for k in range(1 + (ctx.seed % stride), n0 + 1, stride):
                 yield {"scenario": s, "preempt": [k]}
